@@ -709,9 +709,88 @@ def native_covariate_sampler(seed_):
     return None
 
 
+def native_samplers(rec):
+    """bounded run-time contracts on the installed samplers (the law algebra above works in real arithmetic and on one entry at a time):
+    supports and moments at extreme parameters (IEEE range), joint support of multi-dimensional heterogeneous samples, sampling of
+    individuals with replacement"""
+    import chi as real
+    from scipy import stats
+    cases = []
+    for mu, sd in ((1.0, 0.5), (-2.0, 1.0), (-6.0, 1.0), (-8.0, 1.0), (-18.0, 2.0), (-4.5, 0.5), (40.0, 0.1)):
+        cases.append(('truncated', mu, sd))
+    for mu, sd in ((0.0, 1.0), (5.0, 0.01), (-3.0, 2.5), (700.0, 0.5)):
+        cases.append(('lognormal', mu, sd))
+        cases.append(('gaussian', mu, sd))
+    for d, n_ids in ((2, 3), (3, 4), (2, 2)):
+        cases.append(('heterogeneous-joint', d, n_ids))
+    for n_ids, n_s in ((3, 2), (4, 4), (5, 3)):
+        cases.append(('heterogeneous-replacement', n_ids, n_s))
+
+    def one(case):
+        kind = case[0]
+        if kind in ('truncated', 'lognormal', 'gaussian'):
+            _, mu, sd = case
+            n = 4000
+            if kind == 'truncated':
+                x = np.asarray(real.TruncatedGaussianModel().sample([mu, sd], n_samples=n, seed=3), dtype=float).flatten()
+                a_ = (0.0 - mu) / sd
+                want_m, want_s = float(stats.truncnorm.mean(a_, np.inf, loc=mu, scale=sd)), float(stats.truncnorm.std(a_, np.inf, loc=mu, scale=sd))
+                lo = 0.0
+            elif kind == 'lognormal':
+                if mu > 100:
+                    return None
+                x = np.asarray(real.LogNormalModel().sample([mu, sd], n_samples=n, seed=3), dtype=float).flatten()
+                if np.any(x <= 0) or not np.all(np.isfinite(x)):
+                    return 'lognormal sampler at (%s, %s): %d samples are not positive finite numbers' % (mu, sd, int(np.sum(~(x > 0) | ~np.isfinite(x))))
+                x = np.log(x)                   # (moments compared on the log scale, where the law is Gaussian: the raw moments are heavy-tailed)
+                want_m, want_s, lo = mu, sd, -np.inf
+            else:
+                x = np.asarray(real.GaussianModel().sample([mu, sd], n_samples=n, seed=3), dtype=float).flatten()
+                want_m, want_s, lo = mu, sd, -np.inf
+            if len(x) != n or not np.all(np.isfinite(x)):
+                return '%s sampler at (%s, %s): %d of %d samples are not finite' % (kind, mu, sd, int(np.sum(~np.isfinite(x))), n)
+            if np.any(x < lo):
+                return '%s sampler at (%s, %s): %d samples lie below the support bound %s (smallest %r)' % (kind, mu, sd, int(np.sum(x < lo)), lo, float(np.min(x)))
+            if len(np.unique(x)) < 0.99 * n:
+                return '%s sampler at (%s, %s): only %d distinct values among %d draws of a continuous law' % (kind, mu, sd, len(np.unique(x)), n)
+            if abs(np.mean(x) - want_m) > 7 * want_s / np.sqrt(n) or not (0.85 * want_s < np.std(x) < 1.15 * want_s):
+                return '%s sampler at (%s, %s): sample mean %r / std %r, the density it scores has mean %r / std %r' % (kind, mu, sd, float(np.mean(x)), float(np.std(x)), want_m, want_s)
+            return None
+        if kind == 'heterogeneous-joint':
+            _, d, n_ids = case
+            m = real.HeterogeneousModel(n_dim=d, n_ids=n_ids)
+            par = np.array([[10.0 * (i + 1) + j for j in range(d)] for i in range(n_ids)])         # individual i: (10 i + 10, 10 i + 11, ...)
+            x = np.asarray(m.sample(par.flatten(), n_samples=200, seed=5), dtype=float)
+            rows = {tuple(r) for r in par.tolist()}
+            bad = [tuple(r) for r in x.tolist() if tuple(r) not in rows]
+            if x.shape != (200, d) or bad:
+                return 'HeterogeneousModel(n_dim=%d, n_ids=%d): the sample %s is not the parameter vector of any individual (%s): its log-likelihood is -inf for every individual' % (d, n_ids, bad[:1], sorted(rows))
+            if len({tuple(r) for r in x.tolist()}) < n_ids:
+                return 'HeterogeneousModel(n_dim=%d, n_ids=%d): 200 samples contain only %d of the individuals' % (d, n_ids, len({tuple(r) for r in x.tolist()}))
+            return None
+        _, n_ids, n_s = case
+        m = real.HeterogeneousModel(n_dim=1, n_ids=n_ids)
+        par = np.arange(1.0, n_ids + 1)
+        eq = 0
+        n_seeds = 600
+        for sd_ in range(n_seeds):
+            x = np.asarray(m.sample(par, n_samples=n_s, seed=sd_), dtype=float).flatten()
+            eq += int(x[0] == x[1])
+        p0 = 1.0 / n_ids
+        z = (eq / n_seeds - p0) / np.sqrt(p0 * (1 - p0) / n_seeds)
+        if abs(z) > 6:
+            return 'HeterogeneousModel(n_ids=%d).sample(n_samples=%d): the first two samples are the same individual in %d of %d seeded calls; independent uniform draws agree with probability 1/%d (z = %.1f)' % (n_ids, n_s, eq, n_seeds, n_ids, z)
+        return None
+    q = 'chi._population_models.'
+    rec.native_check('samplers.extreme+joint', [q + 'TruncatedGaussianModel.sample', q + 'LogNormalModel.sample', q + 'GaussianModel.sample', q + 'HeterogeneousModel.sample'], cases, one,
+                     'truncated Gaussian sampler at mu / sigma from 2 down to -9 (4000 draws: finite, inside the support, continuous, mean and std of the scored density); Gaussian / log-normal at small and large scales; '
+                     'heterogeneous samples are rows of the parameter matrix (n_dim 2-3); two samples are the same individual with probability 1 / n_ids (600 seeds)', exhaustive=False)
+
+
 def tasks():
     import itertools
-    out = [(cls, (lambda rec, cls=cls: error_model(rec, cls))) for cls in ERR]
+    out = [('native-samplers', native_samplers)]
+    out += [(cls, (lambda rec, cls=cls: error_model(rec, cls))) for cls in ERR]
     out += [(kd, (lambda rec, kd=kd: pop_model(rec, kd))) for kd in POP]
     out += [('pooled-hetero', pooled_hetero), ('moments', moments)]
     out += [('covariate-sampler:' + b_, (lambda rec, b_=b_: covariate_sampler(rec, b_))) for b_ in COVBASE]
